@@ -60,3 +60,4 @@ Theorem C06_new_tips_are_unbuilt :
    exists m, In m (src :: map fst pairs ++ map snd pairs) /\ lookup (refs c) m = Some x').
 Proof. exact (new_tips_are_unbuilt NOTSTARTED). Qed.
 Print Assumptions C06_new_tips_are_unbuilt.
+
